@@ -170,25 +170,52 @@ theorem C11_build_reachable_search {shift : Nat} {lt : SSVerif.Search.LexTree} {
   C11_build_latticeOK _ _ _ wS wE isFiller silWord silpen fillpen
     (reachable_histWF_of_wordFrame lok hr (HistBridge.wordFrame_of_wordFrameB g s.hist hw)) L hb
 
-/-- **The search model M10 admits a word exit in frame 0.**  `EvalOut` (Model/Search.lean) lets the exit score
-become live from ANY emitting state of the previous frame, also state 0, which `hmm_enter` has just made live —
-so the relation `StepRel` allows a word entry with frame 0 directly after `fsg_search_start` (the real
-`hmm_vit_eval` has no arc from state 0 to the exit state: `evalHist3_outLater`).  This is why `wordFrameB` remains
-a hypothesis of `C11_build_reachable_search`: it cannot be proved from the relation as it stands. -/
-theorem C11_build_search_model_admits_frame0_exit :
+/-- **The search model M10 admits no word exit in frame 0** (round 3; until then the opposite was a theorem,
+`C11_build_search_model_admits_frame0_exit`).  The exit clause `EvalOut` of the step relation (Model/Search.lean) now
+carries the topology fact of `hmm_vit_eval`: the exit state of a 3-state HMM is fed from the states 1, 2 only, that
+of a 5-state HMM from 3, 4 only (`OutFrom`) — never from state 0, which `hmm_enter` has just made live.  So in every
+state the modelled search over 3- or 5-state HMMs (`LaterTopo lt.nst`; 3 in every shipped model, evaluated on every
+dumped lextree by the C01 check) can reach, every word entry of the table has frame `≥ 1`.  The new clause is
+part of `stepRelB`, which the C01 check evaluates on every frame of the real search. -/
+theorem C11_build_search_model_no_frame0_exit {shift : Nat} {lt : SSVerif.Search.LexTree} {g : SSVerif.Hist.Fsg}
+    {s : SSVerif.Search.SState} (lok : SSVerif.Search.LexTreeOK lt g) (hn : SSVerif.Search.LaterTopo lt.nst)
+    (hr : SSVerif.Search.Reachable shift lt g s) : SearchExtra.WordFrame g s.hist :=
+  reachable_wordFrame lok hn hr
+
+/-- the statement that used to be `C11_build_search_model_admits_frame0_exit` is now refuted for the topologies the
+search is used with -/
+theorem C11_build_search_model_admits_frame0_exit_false :
+    ¬ ∃ (shift : Nat) (lt : SSVerif.Search.LexTree) (g : SSVerif.Hist.Fsg) (s : SSVerif.Search.SState),
+      SSVerif.Search.LexTreeOK lt g ∧ SSVerif.Search.Reachable shift lt g s ∧ SSVerif.Search.LaterTopo lt.nst ∧
+      ¬ SearchExtra.WordFrame g s.hist :=
+  fun ⟨_, _, _, _, lok, hr, hn, hw⟩ => hw (reachable_wordFrame lok hn hr)
+
+/-- the topology hypothesis is needed, and is a fact about the C code: an HMM with another number of emitting
+states is evaluated by `hmm_vit_eval_anytopo`, which does take the exit score from state 0 when the transition
+matrix has that arc — a reachable state with a frame-0 word entry over 2-state HMMs -/
+theorem C11_build_frame0_exit_needs_topology :
     ∃ (shift : Nat) (lt : SSVerif.Search.LexTree) (g : SSVerif.Hist.Fsg) (s : SSVerif.Search.SState),
       SSVerif.Search.LexTreeOK lt g ∧ SSVerif.Search.Reachable shift lt g s ∧ 2 ≤ lt.nst ∧
       ¬ SearchExtra.WordFrame g s.hist :=
-  wordFrame_not_from_model
+  wordFrame_needs_topology
 
-/-- **C11 over the modelled search, no observation on the table (partial).**  `ReachableL` is `Reachable` with
-one more condition on the step that searches frame 0 only: the exit score of an HMM does not become live from
-emitting state 0 within that frame (`OutLaterStep`, decidable).  The exact mirror `evalHist3` of
-`hmm_vit_eval_3st_lr` meets it (`evalHist3_outLater`).  Then `HistWF` holds outright and the lattice is
-well-formed in every reachable state.  *Partial* because `OutLaterStep` is not yet part of the step relation that
-the C01 check evaluates on dumped search states (`stepRelB`); it is proved for the model of the evaluation
-function, not observed on the implementation. -/
-theorem C11_build_reachableL_search_partial {shift : Nat} {lt : SSVerif.Search.LexTree} {g : SSVerif.Hist.Fsg}
+/-- **C11 over the modelled search, no observation on the table.**  In every state the modelled token-passing
+search over 3- or 5-state HMMs can reach (any lextree satisfying `LexTreeOK`, any number of frames and utterances —
+`Reachable`, Props/C01Search) the hypothesis `HistWF` of `C11_build_latticeOK` holds outright — `WFHist` (C01),
+"null entries do not chain" (`reachable_noNullChain`) and "no word exit in frame 0" (`reachable_wordFrame`) are all
+theorems about the search — and the lattice built from the history table is well-formed.  Hypotheses: `LexTreeOK`
+and `LaterTopo lt.nst`, both decided by the C01 check on every dumped lextree; `Reachable` is tied to the real
+search by `stepRelB`/`startRelB` on every frame (C01 check). -/
+theorem C11_build_reachableL_search {shift : Nat} {lt : SSVerif.Search.LexTree} {g : SSVerif.Hist.Fsg}
+    {s : SSVerif.Search.SState} (lok : SSVerif.Search.LexTreeOK lt g) (hn : SSVerif.Search.LaterTopo lt.nst)
+    (hr : SSVerif.Search.Reachable shift lt g s)
+    (wS wE : Nat) (isFiller : Nat → Bool) (silWord : Nat) (silpen fillpen : Int) (L : Lat)
+    (hb : buildLattice g.toNfa (HistBridge.toH g s.hist) s.frame.toNat wS wE isFiller silWord silpen fillpen = some L) :
+    LatticeOK g.toNfa L :=
+  C11_build_latticeOK _ _ _ wS wE isFiller silWord silpen fillpen (reachable_histWF lok hn hr) L hb
+
+/-- the same over `ReachableL` (the form of round 2, any topology, `OutLaterStep` given for the frame-0 step) -/
+theorem C11_build_reachableL_search_of_outLater {shift : Nat} {lt : SSVerif.Search.LexTree} {g : SSVerif.Hist.Fsg}
     {s : SSVerif.Search.SState} (lok : SSVerif.Search.LexTreeOK lt g) (hr : SearchExtra.ReachableL shift lt g s)
     (wS wE : Nat) (isFiller : Nat → Bool) (silWord : Nat) (silpen fillpen : Int) (L : Lat)
     (hb : buildLattice g.toNfa (HistBridge.toH g s.hist) s.frame.toNat wS wE isFiller silWord silpen fillpen = some L) :
@@ -245,6 +272,21 @@ theorem C11_build_reachable_first_best {sh : Nat} {lt : SSVerif.Search.LexTree} 
   C11_build_first_best_of_seg_iter g s.hist s.frame final shift wf
     (HistBridge.extraB_of_extra g s.hist s.frame wf
       (reachable_extra_of_wordFrame lok hr (HistBridge.wordFrame_of_wordFrameB g s.hist hw)))
+    ss hseg hne wS wE isFiller silWord silpen fillpen L hb
+
+/-- **C11 over the modelled search, first-best, no observation on the table.**  As
+`C11_build_reachable_first_best`, with `wordFrameB` proved from the search model (3- or 5-state HMMs). -/
+theorem C11_build_reachable_first_best_full {sh : Nat} {lt : SSVerif.Search.LexTree} {g : SSVerif.Hist.Fsg}
+    {s : SSVerif.Search.SState} (lok : SSVerif.Search.LexTreeOK lt g) (hn : SSVerif.Search.LaterTopo lt.nst)
+    (hr : SSVerif.Search.Reachable sh lt g s) (final : Bool) (shift : Nat)
+    (ss : List SSVerif.Hist.Seg) (hseg : SSVerif.Hist.segs shift g s.hist s.frame final = some ss)
+    (hne : wordSegs ss ≠ [])
+    (wS wE : Nat) (isFiller : Nat → Bool) (silWord : Nat) (silpen fillpen : Int) (L : Lat)
+    (hb : buildLattice g.toNfa (HistBridge.toH g s.hist) s.frame.toNat wS wE isFiller silWord silpen fillpen = some L) :
+    FirstBestInLattice L (wordSegs ss) :=
+  have wf := (SSVerif.Search.C01_reachable_WFHist lok hr).1
+  C11_build_first_best_of_seg_iter g s.hist s.frame final shift wf
+    (HistBridge.extraB_of_extra g s.hist s.frame wf (reachable_extra lok hn hr))
     ss hseg hne wS wE isFiller silWord silpen fillpen L hb
 
 /-! ### non-vacuity -/
